@@ -356,3 +356,10 @@ B('j17_json_fallthrough_swapped', ['C17'], 'R17.c',
 T('j17_named_mime_tests', ['C17'],
   (RS, _SR_DISPATCH, "        wants_json = resp_mime == 'application/json'\n        wants_html = 'text/html' == resp_mime\n"
        "        if wants_json:\n            return self.json_render(context)\n        if wants_html:\n            render_table = self.tabular_render\n            return render_table(context, _route)\n"))
+# the encoder's last resort in a (public) method of its own
+T('j17_encoder_fallback_method', ['C17'],
+  (RS, _DEV_TAIL, "        return self.fallback(obj)\n\n    def fallback(self, value):\n        if not self.dev_mode:\n"
+       "            raise TypeError('cannot serialize to JSON: %r' % value)\n        return repr(value)\n"))
+B('j17_encoder_fallback_method_always_raises', ['C17'], 'R17.d',
+  (RS, _DEV_TAIL, "        return self.fallback(obj)\n\n    def fallback(self, value):\n"
+       "        raise TypeError('cannot serialize to JSON: %r' % value)\n"))
